@@ -5,6 +5,7 @@ import (
 	"errors"
 	"fmt"
 	"io"
+	"math"
 	"reflect"
 	"strconv"
 	"strings"
@@ -203,8 +204,15 @@ func readBufioSize(reader *bufio.Reader, size int64) ([]byte, error, bool) {
 	read := int64(0)
 	var err error
 	var n int
+	if size < 0 {
+		size = math.MaxInt64 // C reads the count as an unsigned number: the rest of the file
+	}
 	for read != size {
-		buf := make([]byte, size-read)
+		chunk := size - read
+		if chunk > 65536 { // never allocate what the file may not hold
+			chunk = 65536
+		}
+		buf := make([]byte, chunk)
 		n, err = reader.Read(buf)
 		if err != nil {
 			break
